@@ -133,18 +133,15 @@ def run_case_task(task):
             except Unsupported as e:
                 unsupported = str(e)
                 break
+            # vacuity canary: the assumptions of this path must be satisfiable (checked per independent component,
+            # cached: the builder's part is the same on every path).  An unsatisfiable path is infeasible, not a
+            # proof; a case with no feasible path at all is reported as vacuous below.
+            if not _assumptions_sat(res.assumptions):
+                out['infeasible_paths'] = out.get('infeasible_paths', 0) + 1
+                continue
             out['paths'] += 1
             used |= res.used_specs
             inl |= res.inlined
-            # vacuity canary: the assumptions of this path must be satisfiable
-            s = z3.Solver()
-            s.set('timeout', 5000)
-            for a in res.assumptions:
-                s.add(a)
-            if s.check() == z3.unsat:
-                out['status'] = 'vacuous'
-                out['detail'] = 'path assumptions unsatisfiable'
-                break
             # try all goals at once first
             goals = [(n, g) for n, g in res.goals if only is None or any(_fn.fnmatchcase(n, p) for p in only)]
             pending = []
@@ -170,7 +167,9 @@ def run_case_task(task):
                         from .factory import SymFactory
                         mv = verify.model_values(model, _factory_names(c, build, prog, reg))
                     failing.append((n, st, mv, str(g)[:2000] if g is not False else 'False (structural mismatch)', res.desc))
-                    if early_tried < 2:
+                    full_name = '%s/%s/%s/%s' % (opts.get('prop', ''), target.split('::')[1].split('#')[0], name, n)
+                    is_known = any(_fn.fnmatchcase(full_name, pat) for pat in opts.get('known', ()))
+                    if early_tried < 2 and not is_known:
                         # replay at once: a failing input on the real code settles this case (no need to spend
                         # the solver budget on the remaining obligations of a function that is already refuted)
                         early_tried += 1
@@ -218,6 +217,48 @@ def run_case_task(task):
 
 
 _FN_CACHE = {}
+_SAT_CACHE = {}
+
+
+def _assumptions_sat(assumptions):
+    """Satisfiability of a conjunction, decided per symbol-connected component (exact), with a cache."""
+    import z3
+    from .state import _symbols, _abstract
+    assumptions = [_abstract(a) for a in assumptions]
+    items = [(a, _symbols(a)) for a in assumptions if not isinstance(a, bool)]
+    if any(a is False for a in assumptions):
+        return False
+    comp = list(range(len(items)))
+
+    def find(i):
+        while comp[i] != i:
+            comp[i] = comp[comp[i]]
+            i = comp[i]
+        return i
+    owner = {}
+    for i, (a, sy) in enumerate(items):
+        for x in sy:
+            if x in owner:
+                comp[find(i)] = find(owner[x])
+            else:
+                owner[x] = i
+    groups = {}
+    for i in range(len(items)):
+        groups.setdefault(find(i), []).append(items[i][0])
+    for g in groups.values():
+        key = tuple(sorted(a.get_id() for a in g))
+        r = _SAT_CACHE.get(key)
+        if r is None:
+            s = z3.Solver()
+            s.set('timeout', 5000)
+            for a in g:
+                s.add(a)
+            r = s.check() != z3.unsat
+            _SAT_CACHE[key] = r
+            _SAT_CACHE[('keep', key)] = g
+        if not r:
+            return False
+    return True
 
 
 def _factory_names(c, build, prog, reg):
